@@ -100,7 +100,7 @@ STRENGTHENED = {
  "C13_l": "missed at first; after the calls of a case all rules are removed now and then and the DAG model is called once more (all names unknown: nothing runs, nothing fails)",
  "C14_l": "missed at first; the stop-tag variants get name lists with unknown names and lists without any existing name (the call fails like its twin without a tag)",
  "C15_l": "missed at first; the C15 probe runs two nested loops after a loop that was left by break (9 inner passes); C02 catches it as well",
- "C17_k": "missed at first; a third of the storms add 20-50 rendezvous rounds in which max requests are released at the same instant, so that hand-backs collide",
+ "C17_k": "missed at first; two thirds of the storms add 40-120 rendezvous rounds in which max requests are released at the same instant and their hand-backs leave the pool.put.scheduled hook point together (a nanosecond window becomes a reliable one)",
  "C17_l": "caught since N-M requests whose n+m overflows (a panic in the caller's goroutine) are part of the storms",
  "C19_l": "missed at first; the storm rules read map elements of request data with a string-literal and a variable key (first evaluations race on the shared node)",
  "C20_k": "caught since a 'loop cut off by the iteration bound' class (may-cite) is generated",
